@@ -1,4 +1,5 @@
 import DynasmVerif.Generated.A64Dyn
+import DynasmVerif.Generated.RvDyn
 
 /-!
 # C04 — unencodable operands are rejected, never silently truncated or wrapped (aarch64 immediates)
